@@ -52,6 +52,14 @@ func Run(r *core.Run) {
 	add(scen.EdResharing(3, 1, []int{0, 2}, 2, 1, r.Seed), 1, scen.ResultOracle)
 	// ECDSA signing: joint mode (round-2 values are not reproducible), all schedules for 2 signers
 	addMode(scen.EcSigning("small", 2, 1, []int{0, 1}, msg, 0, r.Seed), "joint", 0, 0, scen.ResultOracle)
+	// ECDSA keygen and resharing: FIFO, the directed strategies (starve / rush / late-start each party, LIFO,
+	// deliveries before starts) and, in thorough, every 1-deviation run
+	devs := 0
+	if r.Tier == "thorough" {
+		devs = 1
+	}
+	addMode(scen.EcResharing(2, 1, []int{0, 1}, 2, 1, r.Seed, true), "dev", devs, 0, scen.ResultOracle)
+	addMode(scen.EcKeygen("small", 2, 1, r.Seed), "dev", devs, 0, scen.ResultOracle)
 	if r.Tier == "thorough" {
 		add(scen.EdKeygen("large", 3, 1, r.Seed), 2, scen.ResultOracle)
 		add(scen.EdSigning("small", 3, 2, []int{0, 1, 2}, msg, 0, r.Seed), 2, scen.ResultOracle)
